@@ -46,7 +46,7 @@ def run(ctx, pid="C10", traps=TRAPS, want=WANT, cfgs=("Client_c10q.cfg", "Client
         "distinct_nontrivial": ncancel if pid == "C10" else nfault,
         "rule": "a run = one controlled execution of the real kmipclient (up to 3 concurrent callers on one client, up to 6 connection generations; in two thirds of the runs two seconds of virtual time pass before every call) against controller-operated in-memory servers under the gate controller; %d runs follow TLC-generated schedules into the windows %s (4 replays each), the rest are seeded random walks; non-trivial = runs with a cancellation (C10) / a server close or reset before the drain phase (C11); every run is validated step by step by TLC against TraceClient.tla (invariants NoMisdelivery, AtMostFour, ClosedFails, Recovers at every step) and judged by the oracle" % (len(scheds), ", ".join(traps)),
         "trap_schedules": len(scheds), "events_validated": len(log), "runs_with_cancellation": ncancel, "runs_with_fault": nfault,
-        "samples": [scheds[0]] + runs[len(runs) // 2][:25],
+        "samples": [scheds[0]] + runs[len(runs) // 2][:25], **getattr(ctx, "extra_cov", {}),
     }, assumptions=["controlled runs are macro-step sequences (one shared-memory operation per release); see C08",
                     "the mutex is modelled by a gate before Lock: the controller never releases a caller into a held mutex",
-                    "in-memory transport; version negotiation is skipped (enforced version) except in the C12/C13 drivers"])
+                    "in-memory transport; in the gate-level runs version negotiation is skipped (enforced version); the exchange-fault runs of C11 negotiate"])
